@@ -1,6 +1,7 @@
 package utils
 
 import (
+	"sync"
 	"sync/atomic"
 	"time"
 )
@@ -29,6 +30,10 @@ var (
 const length = int64(64)
 
 type Yeast struct {
+	// mu makes "read the clock, compare with prev, reset or bump the seed" one
+	// step; as separate atomics two callers in the same millisecond could both
+	// see a new timestamp and return the same id.
+	mu   sync.Mutex
 	seed atomic.Int64
 	prev atomic.Value
 }
@@ -59,6 +64,9 @@ func (y *Yeast) Decode(str string) int64 {
 }
 
 func (y *Yeast) Yeast() string {
+	y.mu.Lock()
+	defer y.mu.Unlock()
+
 	now := y.Encode(time.Now().UnixMilli())
 
 	prev, _ := y.prev.Load().(string)
